@@ -89,7 +89,7 @@ FAMILIES = {
         "tiers": {"quick": {"rand": 48, "rlen": 2, "chunks": 8}, "thorough": {"rand": 1500, "rlen": 2, "chunks": 14}},
     },
     "chain": {
-        "fix_all": ["sizes"], "trace_fix": None,
+        "fix_all": ["sizes"], "trace_fix": None, "seeded_replay": True,
         "mc": {"module": "MCChain", "cfg": {"quick": "Chain-mc-quick.cfg", "thorough": ["Chain-mc-quick.cfg"]}, "timeout": {"quick": 300, "thorough": 900}},
         "trace_module": "ChainTrace", "trace_cfg": "Chain-trace.cfg",
         "vh_cfg": {},
